@@ -288,6 +288,7 @@ func (fr *Frame) execUnOp(x *ssa.UnOp, st *State, r string) {
 		v := fr.load(st, p, x.Type())
 		fr.bindReg(x, v)
 		fr.assumeTypeFacts(r, x.Type(), fr.regs[x], st)
+		fr.notePointer(r, fr.regs[x], x.Type())
 		if g, ok := x.X.(*ssa.Global); ok && fr.eng.initNonNil(g) {
 			vc.assert(sNot(sEq(fr.regs[x][0], "0")))
 		}
